@@ -8,6 +8,7 @@ import (
 	"fmt"
 	"os"
 	"runtime/debug"
+	"runtime/pprof"
 	"time"
 
 	"zogverif/mc"
@@ -51,7 +52,13 @@ func main() {
 	deadline := flag.Int("deadline", 0, "seconds; 0 = none")
 	replay := flag.String("replay", "", "replay file")
 	list := flag.Bool("list", false, "list properties")
+	cpuprof := flag.String("cpuprofile", "", "write cpu profile")
 	flag.Parse()
+	if *cpuprof != "" {
+		f, _ := os.Create(*cpuprof)
+		pprof.StartCPUProfile(f)
+		defer pprof.StopCPUProfile()
+	}
 	debug.SetGCPercent(400)
 	if *list {
 		for _, id := range scen.IDs() {
